@@ -446,7 +446,10 @@ class invariant:  # pylint: disable=invalid-name
                 frame.filename, frame.lineno, frame.name
             )
 
-        if inspect.iscoroutinefunction(condition):
+        # A condition may also be a callable object whose ``__call__`` is a coroutine function.
+        if inspect.iscoroutinefunction(condition) or inspect.iscoroutinefunction(
+            getattr(condition, "__call__", None)
+        ):
             raise ValueError(
                 "Async conditions are not possible in invariants as sync methods such as __init__ have to be wrapped."
             )
